@@ -4,7 +4,9 @@ evidence dir; applies every /verif/seeded/*/patch.diff in turn in its worktree, 
 tools_seed_matrix.py), restores the worktree. /repo itself is never touched. Writes seeded/RESULTS.json.
 usage: tools_seed_matrix_par.py [-j W] [seed ...]"""
 import json, os, re, shutil, subprocess, sys, threading, queue
-V = "/verif"
+# VERIF_SNAPSHOT: run from a frozen copy of /verif (rsync without replay/target and build/) so that /verif can be edited while the
+# matrix runs; the results are still written to /verif/seeded/RESULTS.json
+V = os.environ.get("VERIF_SNAPSHOT", "/verif")
 sys.path.insert(0, V + "/contracts")
 from registry import REG  # noqa
 args = sys.argv[1:]
@@ -14,7 +16,7 @@ if "-j" in args:
 man = json.load(open(f"{V}/MANIFEST.json"))
 claimed = [c["property_id"] for c in man["checks"]]
 seeds = args or sorted(d for d in os.listdir(f"{V}/seeded") if os.path.isdir(f"{V}/seeded/{d}"))
-res_path = f"{V}/seeded/RESULTS.json"
+res_path = "/verif/seeded/RESULTS.json"
 results = json.load(open(res_path)) if os.path.exists(res_path) else {}
 
 def files_of(p):
